@@ -487,6 +487,9 @@ BUF_CONTRACTS = {
 # functions whose contract is to set the capacity (content beyond it is given up on purpose)
 DETACH_MAY_TRUNCATE = {"mpt_array_reserve": "explicit capacity request", "mpt_array_reduce": "requests exactly _used",
                        "mpt_array_push": "request follows the encoder state (done + scratch), which the buffer fields do not determine"}
+LINBUF_CXX_EXCLUDED = {
+    "mpt::slice::write": "forwards to mpt_slice_write, which is analysed as a C entry point (the combined exploration exceeds the budget)",
+}
 GAPFILL_EXEMPT = {"mpt_buffer_insert": "returns the inserted area", "mpt_array_insert": "returns the inserted area"}
 GLOBAL_INV = {"_mpt_buffer_alloc_psize": (0, 4 * 1024 * 1024 + 8, 8)}      # 0 (unset) or a page size of at least 8
 
@@ -538,12 +541,14 @@ def _buf_root(i):
     an = LinAnalysis(prog, invariants=invs, contracts=BUF_CONTRACTS)
     an.global_inv = dict(GLOBAL_INV)
     an.slot_contracts = {"detach": slot_detach, "get_flags": slot_pure, "addref": slot_pure}
-    an.max_returns = 8
-    an.state_budget = 6000
+    cxx = f.file.endswith(".cpp")
+    an.max_returns = 40 if cxx else 8
+    an.state_budget = 8000 if cxx else 6000
     an.track_writes = True
     if f.name != "_mpt_buffer_alloc":
         an.post = {"_mpt_buffer_alloc": post_buffer_alloc}
-    an.policy = (lambda fr, g: "inline" if g.file in fileset else "modular")
+    # the C++ wrappers go through small inline methods of the headers (reference<T>::instance(), content::data() ..)
+    an.policy = (lambda fr, g: "inline" if (g.file in fileset or (cxx and g.file.endswith(".h"))) else "modular")
     import time as _t
     t0 = _t.time()
     entry, fr, outs = an.analyse_root(f)
@@ -702,7 +707,10 @@ def _collect(res, parts):
 def run_linbuf(prog, ctx=None):
     res = Result("LINBUF")
     files = [x for x in (ctx.get("files", []) if ctx else []) if x.endswith(".c") and x.startswith((ctx or {}).get("only_dir", ""))]
+    cxxfiles = [x for x in (ctx.get("files", []) if ctx else []) if x in (ctx or {}).get("cxx_files", [])]
     roots = sorted([f for f in prog.funcs_in(files) if not f.nocfg], key=lambda f: (f.file, f.line))
+    roots += sorted([f for f in prog.funcs_in(cxxfiles) if not f.nocfg and f.qn not in LINBUF_CXX_EXCLUDED], key=lambda f: (f.file, f.line, f.qn))
+    files = files + cxxfiles
     if len(roots) < 12:
         raise Broken("LINBUF: only %d entry points in the buffer files" % len(roots))
     _G.update(prog=prog, roots=roots, fileset=set(files))
